@@ -283,7 +283,12 @@ func c18Run(c *fw.Case) {
 		if c.Chance(0.5) {
 			call, want = fmt.Sprintf("CHANGETYPE(%s, 'string')", arg(f)), t
 		} else {
-			call, want = fmt.Sprintf("CHANGETYPE(CHANGETYPE(%s, 'string'), 'double')", arg(f)), f
+			// the round trip is asserted for every finite double, whatever its text looks like
+			if c.Chance(0.5) {
+				f = gen.Pick(c.R, []float64{1e19, 1e21, 6.02e23, 1.7976931348623157e308, 5e-324, 1e-7, 123456789, 9223372036854775808, 18446744073709551616, -1e19, 9007199254740993, 0.1, 1e6, 2.5e-5, 1 << 62, -9223372036854775808})
+			}
+			row["big"] = f
+			call, want = "CHANGETYPE(CHANGETYPE(big, 'string'), 'double')", f
 		}
 	case "changetype.double":
 		f := float64(c.Intn(4001)-2000) / 8
